@@ -1,6 +1,7 @@
 """Property id -> rules, and the texts that go to MANIFEST / evidence."""
 from .rules import (
-    optab, sign, role, memo, state, reord, handles, raw, domain, formats)
+    optab, sign, role, memo, state, reord, handles, raw, domain, formats,
+    grammar)
 
 PROPS = dict()
 NOT_BUILT = dict()
@@ -99,9 +100,22 @@ prop('C05', [
     sign.r_sign,
     role.r_role,
     memo.r_memo,
+    grammar.r_grammar,
+    optab.r_optab_bdd,
+    optab.r_vocab,
 ],
-    'printer _to_expr: sign and roles (ite(var, HIGH, LOW), FALSE/TRUE '
-    'shortcut).',
+    'the lexer is reconstructed from the source (regex docstrings, PLY '
+    'ordering rule) and every spelling of every operator rule and every '
+    'spelling of the documented grammar (doc.md) is lexed against it; the '
+    'canonical value each token hands to apply is interpreted through '
+    'BDD.apply and compared with the connective of the token; the '
+    'precedence tuple equals the documented list in order and '
+    'associativity and respects the order stated in the property; each '
+    'production passes (operator, operands) from the positions of its '
+    'symbols; quantifier / renaming operand roles in the translator; '
+    'constants, comments, @n references; every fragment emitted by '
+    'to_expr lexes to the intended token; printer _to_expr: sign and '
+    'roles (ite(var, HIGH, LOW), FALSE/TRUE shortcut).',
     'the LALR automaton PLY builds from the productions.',
     'token/precedence table agreement; path-sensitive dataflow on the '
     'printer')
